@@ -177,6 +177,18 @@ def run(ctx, rep):
     if not loops:
         raise AnalysisError("C18.3: no loop in stretched_gates")
     loop = loops[0]
+    # every variant is stored under a real name
+    flsg = FuncFlow(ix, T, sg)
+    for st in iter_stmts(sg.body):
+        if isinstance(st, ast.Assign) and isinstance(st.targets[0], ast.Subscript) and isinstance(st.targets[0].value, ast.Name) and not isinstance(st.targets[0].slice, ast.Slice):
+            key = st.targets[0].slice
+            defs = [key] + (flsg.defs.get(key.id, []) if isinstance(key, ast.Name) else [])
+            cons = construct_of(sg, f"result-key:{ast.unparse(st.targets[0])}")
+            none_def = [d for d in defs if isinstance(d, ast.Constant) and d.value is None]
+            if none_def:
+                rep.violation("C18.3", cons, f"`{ast.unparse(st)}` can store a variant under the key None (no suffix given): every stretched gate overwrites the previous one and the result holds a single entry {{None: ..}}; with an idle gate in the set `name + suffix` raises TypeError", f"{sg.path}:{st.lineno}", witness="stretched_gates({'Px': Px, 'H': H})")
+            else:
+                rep.ok("C18.3", cons, "the key is always a gate name", f"{sg.path}:{st.lineno}")
     rebound = set(names_in(loop.target))
     for st in iter_stmts(loop.body):
         if isinstance(st, ast.Assign):
@@ -276,3 +288,15 @@ def run(ctx, rep):
             rep.ok("C18.3", cons, f"`{ast.unparse(n)}` derives the idle twin from the stretched gate", f"{sg.path}:{n.lineno}")
         else:
             rep.violation("C18.3", cons, f"`{ast.unparse(n)}` derives the idle twin from `{ast.unparse(a0) if a0 is not None else '?'}`, not from the stretched copy: the stretched idle gate lacks the trailing stretch parameter", f"{sg.path}:{n.lineno}")
+
+    # validate() itself must not fail with anything but JaqalError: no bare numeric conversion of the candidate value
+    val = ix.functions.get("jaqalpaq.core.parameter.Parameter.validate")
+    if val is not None:
+        cons = construct_of(val, "int-branch-total")
+        convs = [n for n in walk_no_nested(val.node) if isinstance(n, ast.Call) and isinstance(n.func, ast.Name) and n.func.id in ("int", "float") and n.args and any(isinstance(m, ast.Name) and m.id == val.params[1] for m in ast.walk(n.args[0]))]
+        in_try = [t for t in walk_no_nested(val.node) if isinstance(t, ast.Try)]
+        unprotected = [c for c in convs if not any(any(x is c for b in t.body for x in ast.walk(b)) for t in in_try)]
+        if unprotected:
+            rep.violation("C18.4", cons, f"`{ast.unparse(unprotected[0])}` converts the candidate value: float('inf') raises OverflowError, NaN ValueError and a Parameter (no .value) AttributeError instead of the JaqalError the other mismatches give", f"{val.path}:{unprotected[0].lineno}", witness="Parameter('n', ParamType.INT).validate(float('inf'))")
+        else:
+            rep.ok("C18.4", cons, "integrality is tested without converting the value (float.is_integer on floats only)", val.loc())
